@@ -1,4 +1,178 @@
-import Physt.Theorems.C01
+import Physt.Proofs.NDArray
+import Physt.Proofs.FindBin
+import Physt.Model.HistND
+/-!
+# C02 — ND construction: each row counted once, in the cell that contains it
+
+`calcND` is the model of `calculate_nd_frequencies` (masked edges + `histogramdd` + mask
+selection per axis).  `numpy.histogramdd` itself is assumed at its documented semantics.
+-/
 namespace Physt
-theorem C02_placeholder : True := trivial
+
+/-- **Cell content.** For every valid cell index the content is the weight of the rows whose cell
+    (the tuple of per-axis bins found for the row's coordinates) is that index, and the squared
+    error is the sum of their squared weights. -/
+theorem C02_content (axes : List (Bins × Bool)) (rows : List Row) (idx : List Nat)
+    (h : validIdx (axes.map (·.1.length)) idx = true) :
+    (calcND axes rows).freq.get idx
+      = ((rows.filter fun r => rowCell axes r.1 == some idx).map (·.2)).sum ∧
+    (calcND axes rows).err2.get idx
+      = ((rows.filter fun r => rowCell axes r.1 == some idx).map fun r => r.2 * r.2).sum := by
+  unfold calcND
+  simp only
+  rw [Arr.get_ofFn _ _ _ h, Arr.get_ofFn _ _ _ h]
+  constructor
+  · simp only [List.filter_map, List.map_map]; rfl
+  · simp only [List.filter_map, List.map_map]; rfl
+
+/-- **Accounting.** `total + missed` is the total weight of the rows (after the NaN mask). -/
+theorem C02_missed (axes : List (Bins × Bool)) (rows : List Row) :
+    (calcND axes rows).freq.total + (calcND axes rows).missing = (rows.map (·.2)).sum := by
+  unfold calcND; simp only; ring
+
+/-- **Axes are never mixed up.** The cell of a row is found coordinate by coordinate: coordinate
+    `a` is looked up in the bins of axis `a` and nowhere else. -/
+theorem C02_axes (axes : List (Bins × Bool)) (row : List Rat) (idx : List Nat) (hl : axes.length = row.length) :
+    rowCell axes row = some idx ↔
+      idx.length = axes.length ∧ ∀ a (ha : a < axes.length) (hr : a < row.length) (hi : a < idx.length),
+        axisCell axes[a].1 axes[a].2 row[a] = some idx[a] := by
+  unfold rowCell
+  induction axes generalizing row idx with
+  | nil =>
+    cases row with
+    | nil => cases idx <;> simp [List.mapM_nil]
+    | cons _ _ => simp at hl
+  | cons ax axs ih =>
+    cases row with
+    | nil => simp at hl
+    | cons x xs =>
+      have hl' : axs.length = xs.length := by simpa using hl
+      simp only [List.zip_cons_cons, List.mapM_cons, Option.bind_eq_bind, Option.pure_def]
+      cases hc : axisCell ax.1 ax.2 x with
+      | none =>
+        simp only [Option.bind_none]
+        constructor
+        · intro h; cases h
+        · intro h
+          cases idx with
+          | nil => simp at h
+          | cons i is =>
+            have := h.2 0 (by simp) (by simp) (by simp)
+            simp [hc] at this
+      | some c =>
+        simp only [Option.bind_some]
+        cases hm : List.mapM (fun x => axisCell x.1.1 x.1.2 x.2) (axs.zip xs) with
+        | none =>
+          simp only [Option.bind_none]
+          constructor
+          · intro h; cases h
+          · intro h
+            cases idx with
+            | nil => simp at h
+            | cons i is =>
+              have hrest := (ih xs is hl').mpr ⟨by simpa using h.1, fun a ha hr hi => by
+                have := h.2 (a + 1) (by simp; omega) (by simp; omega) (by simp; omega)
+                simpa using this⟩
+              rw [hm] at hrest; cases hrest
+        | some cs =>
+          simp only [Option.bind_some, Option.some.injEq]
+          have hcs := (ih xs cs hl').mp hm
+          constructor
+          · intro h
+            subst h
+            refine ⟨by simp [hcs.1], ?_⟩
+            intro a ha hr hi
+            cases a with
+            | zero => simpa using hc
+            | succ a => simpa using hcs.2 a (by simpa using ha) (by simpa using hr) (by simpa using hi)
+          · intro h
+            cases idx with
+            | nil => simp at h
+            | cons i is =>
+              have h0 := h.2 0 (by simp) (by simp) (by simp)
+              simp only [List.getElem_cons_zero, hc, Option.some.injEq] at h0
+              have hrest := (ih xs is hl').mpr ⟨by simpa using h.1, fun a ha hr hi => by
+                have := h.2 (a + 1) (by simp; omega) (by simp; omega) (by simp; omega)
+                simpa using this⟩
+              rw [hm] at hrest
+              rw [h0, Option.some.inj hrest]
+
+/-- **NaN rows** are dropped together with their weights (no weights: weight 1). -/
+theorem C02_nan_rows (rows : List (List (Option Rat))) :
+    maskRows rows none = (rows.filter fun r => r.all Option.isSome).map fun r => (r.filterMap id, 1) := by
+  induction rows with
+  | nil => rfl
+  | cons r rs ih => by_cases h : r.all Option.isSome = true <;> simp [maskRows, h, ih]
+
+theorem C02_nan_rows_weighted (rows : List (List (Option Rat))) (ws : List Rat) (hl : ws.length = rows.length) :
+    maskRows rows (some ws)
+      = ((rows.zip ws).filter fun p => p.1.all Option.isSome).map fun p => (p.1.filterMap id, p.2) := by
+  induction rows generalizing ws with
+  | nil => simp [maskRows]
+  | cons r rs ih =>
+    cases ws with
+    | nil => simp at hl
+    | cons w ws =>
+      have hl' : ws.length = rs.length := by simpa using hl
+      by_cases h : r.all Option.isSome = true <;> simp [maskRows, h, ih ws hl']
+
+/-- **find_bin along an axis** agrees with the 1-D search when the axis includes its right edge,
+    hence (C03) returns bin `i` iff `left ≤ x < right` (last bin right-closed). -/
+theorem C02_find_bin_axis (bins : Bins) (hb : Rising bins) (v : Rat) (i : Nat) :
+    HN.findBinAxis bins true v = some i ↔ inBin bins true i v = true := by
+  rw [← findBinIn_bin_iff bins hb v i]
+  unfold HN.findBinAxis H1.findBinIn
+  simp only
+  by_cases h0 : (bins.filter fun b => decide (b.1 ≤ v)).length = 0
+  · simp [h0]
+  · simp only [h0, if_false]
+    cases bins[(bins.filter fun b => decide (b.1 ≤ v)).length - 1]? with
+    | none => simp
+    | some b =>
+      obtain ⟨l, r⟩ := b
+      simp only
+      by_cases hn : (bins.filter fun b => decide (b.1 ≤ v)).length = bins.length
+      · simp only [hn, if_true, and_true]
+        by_cases hv : v ≤ r
+        · have : v < r ∨ v = r := lt_or_eq_of_le hv
+          simp [hv, this]
+        · have : ¬ (v < r ∨ v = r) := fun h => hv (h.elim le_of_lt le_of_eq)
+          simp [hv, this]
+      · simp only [hn, if_false]
+        by_cases hv : v < r <;> simp [hv]
+
+/-- a right-open axis (fixed-width binnings) does not contain its last edge -/
+theorem C02_right_open (bins : Bins) (l r : Rat) (hlast : bins.getLast? = some (l, r)) (hb : Rising bins) :
+    HN.findBinAxis bins false r = none := by
+  have hne : bins ≠ [] := by intro h; subst h; simp at hlast
+  have hlastidx : bins[bins.length - 1]? = some (l, r) := by
+    rw [← List.getLast?_eq_getElem?]; exact hlast
+  have hlen : 0 < bins.length := List.length_pos_iff.mpr hne
+  -- every left edge is ≤ r, so the search lands on the last bin
+  have hall : (bins.filter fun b => decide (b.1 ≤ r)).length = bins.length := by
+    rw [List.filter_eq_self.mpr]
+    intro b hbm
+    simp only [decide_eq_true_eq]
+    have hlt := hb.lt b hbm
+    obtain ⟨j, hj, rfl⟩ := List.getElem_of_mem hbm
+    rcases Nat.lt_or_ge j (bins.length - 1) with h | h
+    · have := List.pairwise_iff_getElem.mp hb.pairwise j (bins.length - 1) hj (by omega) h
+      rw [(List.getElem?_eq_some_iff.mp hlastidx).2] at this
+      have hl' : l < r := hb.lt (l, r) (List.mem_of_getElem? hlastidx)
+      simp only at this; linarith
+    · have : j = bins.length - 1 := by omega
+      subst this
+      rw [(List.getElem?_eq_some_iff.mp hlastidx).2]; exact le_of_lt (hb.lt (l, r) (List.mem_of_getElem? hlastidx))
+  unfold HN.findBinAxis
+  simp only [hall]
+  have : ¬ bins.length = 0 := by omega
+  simp [this, hlastidx]
+
+/-! Non-vacuity: a gapped axis, a right-closed and a right-open axis -/
+example : axisCell [(0, 1), (2, 3)] true (3 / 2) = none ∧ axisCell [(0, 1), (2, 3)] true 3 = some 1 ∧
+    axisCell [(0, 1), (1, 2)] false 2 = none ∧ axisCell [(0, 1), (1, 2)] true 2 = some 1 ∧
+    axisCell [(0, 1), (2, 3)] true 2 = some 1 ∧ axisCell [(0, 1), (2, 3)] true 1 = none := by decide +kernel
+example : (calcND [([(0, 1), (1, 2)], true), ([(0, 2)], false)] [([1 / 2, 1], 2), ([3 / 2, 2], 1), ([5, 1], 1)]).freq.data
+    = [2, 0] := by decide +kernel
+
 end Physt
